@@ -42,7 +42,7 @@ CHECKS = {
  "C21": dict(level="exploration", technique="deterministic whole-system simulation of the language server inside a testing/synctest bubble: real LSPServer.Run, handler chain, jsonrpc2 stream/connection and fakenet feeders; simulated editor, blocking stdin pipe (split deliveries, short reads, cut inside a message) and a seeded token scheduler that decides at every statement of the lsp/jsonrpc2/fakenet packages (AST-inserted yields, simulator-aware mutexes, wrapped go statements) which goroutine runs next; oracle = editor model equality at drain points; shrunk replayable tapes",
    text="Seeded search over editing sessions (full/incremental/multi-change/invalid edits over Unicode text with astral characters and CRLF, .wa and .wz documents, requests and cancels in flight), delivery schedules and goroutine interleavings of the real server. At every drain point and at the end, the server's text of each open document must equal the editor model's after all completely delivered notifications; invalid edits and half-delivered notifications must leave it unchanged; Run must return after EOF; no panic or deadlock. 3200 runs were replayed three times across GOMAXPROCS 1/2/4/16 under load with identical event-log digests. Evidence, not proof.",
    note="interleavings are explored at statement granularity in the rewritten packages; code that is not rewritten runs atomically; positions the LSP specification leaves ambiguous are not generated", ref="DESIGN.md section 4 C21"),
- "C25": dict(level="fault_enumeration", technique="deterministic simulation of the byte-stream transport: seeded packet sequences through the real SLIP/SLIPMUX writer and reader, complete enumeration of every single transient-empty-read position x kind per stream, plus seeded multi-stall / bounded-chunk schedules; shrunk replayable tapes",
+ "C25": dict(level="fault_enumeration", technique="deterministic simulation of the byte-stream transport: seeded packet sequences through the real SLIP/SLIPMUX writer and reader, complete enumeration of every single transient-empty-read position x kind per stream and of every single failing Write call of the sender (retry / give up), plus seeded multi-stall / bounded-chunk schedules; shrunk replayable tapes",
    text="Every generated stream is read back fault-free and under every single stall position and kind (complete for one fault per stream up to the size limit), then under seeded multi-fault schedules; payloads and frame types must equal what was written and every packet must be delivered once the bytes are available. Streams are sampled, the single-fault space per stream is enumerated.",
    note="trusts the harness consumer loop (concatenate isPrefix fragments) as the documented reader protocol; transient reads limited to (0,nil),(0,EOF),(0,timeout); no concurrent writers", ref="DESIGN.md section 4 C25"),
  "C26": dict(level="fault_enumeration", technique="deterministic simulation of the byte stream under bufio: seeded messages of every registered type (fields filled by reflection from the tape) through the real DAP writer/reader/decoder, complete enumeration of every single split offset and every cut offset per stream, bounded-chunk reads, seeded short-read/empty-burst/cut schedules; shrunk replayable tapes",
